@@ -85,8 +85,14 @@ func (l *Layouter) Layout(s string) []glyph.Info {
 	}
 
 	font := l.font
+	numGlyphs := font.NumGlyphs()
 	for i := range seq {
 		gid := seq[i].GID
+		if int(gid) >= numGlyphs {
+			// A broken cmap or GSUB table may refer to glyphs which
+			// do not exist.  Such glyphs have no advance width.
+			continue
+		}
 		if !font.Gdef.IsMark(gid) {
 			seq[i].Advance = funit.Int16(font.GlyphWidth(gid)) // TODO(voss)
 		}
